@@ -17,7 +17,7 @@ fn strs(v: &Value) -> Vec<String> {
 
 fn flat_case_source(case: &Value) -> flat::Rendered {
     let items: Vec<flat::Item> = strs(&case["b"]).iter().map(|s| flat::Item::parse(s)).collect();
-    flat::render(&items, &strs(&case["consts"]), &strs(&case["params"]))
+    flat::render_with_decoy(&items, &strs(&case["consts"]), &strs(&case["params"]), &strs(&case["decoy"]))
 }
 
 fn replay_flat(args: &[String]) {
